@@ -12,6 +12,7 @@ pub fn check(tier: Tier) -> i32 {
     rep.mandatory_scopes = plan.spaces.len();
     let budget = Budget::new(wall_cap(tier));
     run_plan(&mut rep, &plan, &budget, |s, acc| c12_eval(s, acc));
+    run_long(&mut rep, tier, &budget, |s, acc| c12_eval(s, acc));
     rep.finish()
 }
 pub fn replay(case: &Value) -> Result<Acc, String> {
